@@ -3,7 +3,7 @@
    while exactly one handle refers to it. *)
 From Coq Require Import ZArith List Bool Arith Lia.
 From Common Require Import ListAux.
-From Rc Require Import RcConc.
+From Rc Require Import RcModel RcConc.
 Import ListNotations.
 Local Open Scope Z_scope.
 
@@ -134,8 +134,8 @@ Definition tshape (th : thread) : Prop :=
       match phase th with
       | 0%nat => idle th
       | 1%nat => idle th /\ has (tv th v)
-      | 2%nat | 3%nat => pend th = None /\ has (tmp th) /\ has (tv th v)
-      | 4%nat => has (tmp th) /\ has (pend th) /\ tv th v = None /\ (v < length (tvars th))%nat
+      | 2%nat | 3%nat => pend th = None /\ has (tv th v)
+      | 4%nat => has (pend th) /\ tv th v = None /\ (v < length (tvars th))%nat
       | _ => False
       end
   | CRead _ :: _ | CSwap _ _ :: _ => phase th = 0%nat /\ idle th
@@ -162,7 +162,7 @@ Record CInv (st : cstate) : Prop := {
   ci_thr : forall t th, nth_error (threads st) t = Some th -> tshape th /\ jclaim (cheap st) th }.
 
 Definition st_upd (st : cstate) (h' : list cblock) (t : nat) (th' : thread) : cstate :=
-  {| cheap := h'; threads := upd t th' (threads st); cflt := None; cvariant := cvariant st |}.
+  {| cheap := h'; threads := upd t th' (threads st); cflt := None; cflav := cflav st |}.
 
 Lemma tok_upd st h' t th th' b : nth_error (threads st) t = Some th ->
   tok (st_upd st h' t th') b = tok st b - tokc b th + tokc b th'.
@@ -284,7 +284,7 @@ Proof.
   destruct (held_not_freed st t th b I H T) as (F & C & C1 & NP & FR).
   pose proof (not_freed_in_range _ _ F) as L.
   split; [unfold monitor; rewrite F; reflexivity|].
-  cbn [heap_act fst]. set (k' := {| crc := _; cfreed := _; cfrees := _; cval := _ |}).
+  cbn [heap_act fst]. set (k' := {| crc := _; cfreed := _; cfrees := _; cval := _; ccap := _ |}).
   constructor.
   - reflexivity.
   - intros c. destruct (Nat.eq_dec c b) as [->|N].
@@ -313,7 +313,7 @@ Proof.
   pose proof (not_freed_in_range _ _ F) as L.
   split.
   { unfold monitor. rewrite F. destruct (crc (getcb (cheap st) b) - 1 <? 0) eqn:E; [apply Z.ltb_lt in E; lia|reflexivity]. }
-  cbn [heap_act fst]. set (k' := {| crc := _; cfreed := _; cfrees := _; cval := _ |}).
+  cbn [heap_act fst]. set (k' := {| crc := _; cfreed := _; cfrees := _; cval := _; ccap := _ |}).
   constructor.
   - reflexivity.
   - intros c. destruct (Nat.eq_dec c b) as [->|N].
@@ -346,7 +346,7 @@ Proof.
   pose proof (not_freed_in_range _ _ F) as L.
   split.
   { unfold monitor. rewrite F. unfold handles_total. fold (tok st b). rewrite <- A1, E. reflexivity. }
-  cbn [heap_act fst]. set (k' := {| crc := _; cfreed := _; cfrees := _; cval := _ |}).
+  cbn [heap_act fst]. set (k' := {| crc := _; cfreed := _; cfrees := _; cval := _; ccap := _ |}).
   constructor.
   - reflexivity.
   - intros c. destruct (Nat.eq_dec c b) as [->|N].
@@ -366,15 +366,15 @@ Proof.
     + rewrite getcb_updb_other by congruence. auto.
 Qed.
 
-Lemma K_alloc st t th th' src : CInv st -> nth_error (threads st) t = Some th -> 1 <= tokc src th ->
+Lemma K_alloc st t th th' src nv nc : CInv st -> nth_error (threads st) t = Some th -> 1 <= tokc src th ->
   (forall c, tokc c th' = tokc c th + isb c (Some (length (cheap st)))) -> (forall c, pendc c th' = pendc c th) ->
   tshape th' -> (forall h, jclaim h th') ->
-  monitor st (AAlloc src) = None /\ CInv (st_upd st (fst (heap_act (cheap st) (AAlloc src))) t th').
+  monitor st (AAlloc src nv nc) = None /\ CInv (st_upd st (fst (heap_act (cheap st) (AAlloc src nv nc))) t th').
 Proof.
   intros I H T TD PD S J.
   destruct (held_not_freed st t th src I H T) as (F & _).
   split; [unfold monitor; rewrite F; reflexivity|].
-  cbn [heap_act fst]. set (k' := {| crc := _; cfreed := _; cfrees := _; cval := _ |}).
+  cbn [heap_act fst]. set (k' := {| crc := _; cfreed := _; cfrees := _; cval := _; ccap := _ |}).
   set (nb := length (cheap st)) in *.
   assert (GN : getcb (cheap st ++ [k']) nb = k').
   { unfold getcb, nb. rewrite app_nth2 by lia. rewrite Nat.sub_diag. reflexivity. }
@@ -403,18 +403,18 @@ Proof.
     exfalso. unfold getcb, nb in R. rewrite nth_overflow in R by lia. simpl in R. lia.
 Qed.
 
-Lemma K_write st t th th' b : CInv st -> nth_error (threads st) t = Some th -> 1 <= tokc b th ->
+Lemma K_write st t th th' b nv : CInv st -> nth_error (threads st) t = Some th -> 1 <= tokc b th ->
   crc (getcb (cheap st) b) = 1 ->
   (forall c, tokc c th' = tokc c th) -> (forall c, pendc c th' = pendc c th) ->
   tshape th' -> (forall h, jclaim h th') ->
-  monitor st (AWrite b) = None /\ CInv (st_upd st (fst (heap_act (cheap st) (AWrite b))) t th').
+  monitor st (AWrite b nv) = None /\ CInv (st_upd st (fst (heap_act (cheap st) (AWrite b nv))) t th').
 Proof.
   intros I H T R1 TD PD S J.
   destruct (held_not_freed st t th b I H T) as (F & C & C1 & NP & FR).
   pose proof (not_freed_in_range _ _ F) as L.
   split.
   { unfold monitor. rewrite F. unfold handles_total. fold (tok st b). rewrite <- C, R1. reflexivity. }
-  cbn [heap_act fst]. set (k' := {| crc := _; cfreed := _; cfrees := _; cval := _ |}).
+  cbn [heap_act fst]. set (k' := {| crc := _; cfreed := _; cfrees := _; cval := _; ccap := _ |}).
   assert (G : forall c, crc (getcb (updb (cheap st) b k') c) = crc (getcb (cheap st) c) /\
                         cfreed (getcb (updb (cheap st) b k') c) = cfreed (getcb (cheap st) c) /\
                         cfrees (getcb (updb (cheap st) b k') c) = cfrees (getcb (cheap st) c)).
@@ -554,9 +554,9 @@ Proof. intros [_ B]. exact B. Qed.
 Lemma idle_tmp th : idle th -> tmp th = None.
 Proof. intros [A _]. exact A. Qed.
 
-Lemma inplace_one variant r : inplace_test variant r = true -> 1 <= r -> r = 1.
+Lemma inplace_one f r : inplace_test f r = true -> 1 <= r -> r = 1.
 Proof.
-  unfold inplace_test. destruct variant; intros E R.
+  unfold inplace_test. destruct (tests_gt1 f); intros E R.
   - apply negb_true_iff in E. rewrite Z.gtb_ltb in E. apply Z.ltb_ge in E. lia.
   - apply Z.eqb_eq in E. exact E.
 Qed.
@@ -568,7 +568,7 @@ Proof.
   destruct (prog th) as [|op rest] eqn:P; [exact I|].
   destruct (ci_thr st I t th H) as [S J].
   unfold plan. rewrite P. unfold tshape in S. rewrite P in S. unfold jclaim in J. rewrite P in J.
-  destruct op as [d s|d s|v|v force|v|a b].
+  destruct op as [d s|d s|v|v m|v|a b].
   - (* CCopy *)
     destruct (phase th) as [|[|ph]] eqn:PH; [| |contradiction].
     + destruct (tv th d) as [bd|] eqn:Td; [apply (fire_skip st t th I H S)|].
@@ -587,7 +587,8 @@ Proof.
       * intros h. apply jclaim_phase. cbn. discriminate.
   - (* CAssign *)
     destruct (phase th) as [|[|[|[|[|ph]]]]] eqn:PH; [| | | | |contradiction].
-    + destruct (tv th d) as [bd|] eqn:Td; [|apply (fire_skip st t th I H S)].
+    + destruct (skips_self (cflav st) && Nat.eqb d s); [apply (fire_skip st t th I H S)|].
+      destruct (tv th d) as [bd|] eqn:Td; [|apply (fire_skip st t th I H S)].
       destruct (tv th s) as [b|] eqn:Ts; [|apply (fire_skip st t th I H S)].
       apply (fire_touch st t th b (goto th 1) I H (tv_tokc th s b Ts)); try (intros; reflexivity).
       * unfold tshape. cbn [prog phase goto]. rewrite P. repeat split; try apply S; [exists bd; exact Td|exists b; exact Ts].
@@ -647,32 +648,39 @@ Proof.
     + destruct S as (ID & [b Tv]). rewrite Tv.
       pose proof (tv_tokc th v b Tv) as T.
       destruct (J eq_refl b Tv) as [R1 R2].
-      destruct (inplace_test (cvariant st) (reg th) && negb force) eqn:E.
-      * apply andb_true_iff in E. destruct E as [E _]. pose proof (inplace_one _ _ E R1) as R.
-        destruct (K_write st t th (pop th) b I H T (R2 R)) as [M C]; try (intros; reflexivity).
+      destruct (inplace_ok (cflav st) m (reg th) && fits (cflav st) (getcb (cheap st) b) m) eqn:E.
+      * apply andb_true_iff in E. destruct E as [E _]. unfold inplace_ok in E. apply andb_true_iff in E. destruct E as [E _].
+        pose proof (inplace_one _ _ E R1) as R.
+        destruct (K_write st t th (pop th) b (newval m (cval (getcb (cheap st) b))) I H T (R2 R)) as [M C]; try (intros; reflexivity).
         -- apply tshape_pop. exact ID.
         -- intros h. apply jclaim_phase. cbn. discriminate.
         -- rewrite (fire_ok _ _ _ _ M). exact C.
-      * destruct (K_alloc st t th (goto (set_tmp th (Some (length (cheap st)))) 2) b I H T) as [M C].
-        -- intros c. change (tokc c (set_tmp th (Some (length (cheap st)))) = tokc c th + isb c (Some (length (cheap st)))).
-           unfold tokc. cbn [tvars tmp set_tmp]. rewrite (idle_tmp th ID). simpl isb at 2. lia.
-        -- intros c. reflexivity.
-        -- unfold tshape. cbn [prog phase goto set_tmp tmp pend]. rewrite P.
-           split; [apply (idle_pend th ID)|]. split; [eexists; reflexivity|exists b; exact Tv].
-        -- intros h. unfold jclaim. cbn [prog phase goto set_tmp]. rewrite P. intros X; discriminate.
-        -- rewrite (fire_ok _ _ _ _ M). exact C.
-    + destruct S as (PN & TM & [b Tv]). rewrite Tv.
+      * assert (AL : forall nv nc, CInv (fire st t (AAlloc b nv nc) (fun _ nb => goto (set_tmp th (Some nb)) 2))).
+        { intros nv nc.
+          destruct (K_alloc st t th (goto (set_tmp th (Some (length (cheap st)))) 2) b nv nc I H T) as [M C].
+          -- intros c. change (tokc c (set_tmp th (Some (length (cheap st)))) = tokc c th + isb c (Some (length (cheap st)))).
+             unfold tokc. cbn [tvars tmp set_tmp]. rewrite (idle_tmp th ID). simpl isb at 2. lia.
+          -- intros c. reflexivity.
+          -- unfold tshape. cbn [prog phase goto set_tmp tmp pend]. rewrite P.
+             split; [apply (idle_pend th ID)|exists b; exact Tv].
+          -- intros h. unfold jclaim. cbn [prog phase goto set_tmp]. rewrite P. intros X; discriminate.
+          -- rewrite (fire_ok _ _ _ _ M). exact C. }
+        destruct m as [dg| |]; try apply AL.
+        apply (fire_touch st t th b (goto th 3) I H T); try (intros; reflexivity).
+        -- unfold tshape. cbn [prog phase goto]. rewrite P. split; [apply (idle_pend th ID)|exists b; exact Tv].
+        -- unfold jclaim; cbn [prog phase goto]; rewrite P. intros X; discriminate.
+    + destruct S as (PN & [b Tv]). rewrite Tv.
       apply (fire_touch st t th b (goto th 3) I H (tv_tokc th v b Tv)); try (intros; reflexivity).
       * unfold tshape. cbn [prog phase goto]. rewrite P. repeat split; auto. exists b; exact Tv.
       * unfold jclaim; cbn [prog phase goto]; rewrite P. intros X; discriminate.
-    + destruct S as (PN & TM & [b Tv]). rewrite Tv.
+    + destruct S as (PN & [b Tv]). rewrite Tv.
       apply (fire_dec st t th v b 4 I H Tv PN); [|discriminate].
       unfold tshape, after_dec. cbn [prog phase goto set_reg set_pend set_var tmp pend tvars]. rewrite P.
       pose proof (tv_lt th v b Tv) as L.
-      split; [exact TM|]. split; [eexists; reflexivity|]. split.
+      split; [eexists; reflexivity|]. split.
       * unfold tv. cbn [tvars]. apply nth_upd_same. exact L.
       * rewrite upd_length. exact L.
-    + destruct S as (TM & PB & Tv & Lv).
+    + destruct S as (PB & Tv & Lv).
       apply (fire_free_phase st t th _ I H PB).
       * intros c. apply tokc_after_store; assumption.
       * reflexivity.
@@ -708,7 +716,7 @@ Proof. intros Z0. induction l as [|x r IH]; simpl; [reflexivity|]. rewrite Z0, I
 Lemma tshape_fresh tvs p : tshape {| tvars := tvs; tmp := None; pend := None; reg := 0; prog := p; phase := 0 |}.
 Proof. unfold tshape, idle; cbn. destruct p as [|[] ?]; cbn; auto. Qed.
 
-Theorem cinit_inv variant val nv cfg : CInv (cinit variant val nv cfg).
+Theorem cinit_inv f val nv cfg : CInv (cinit f val nv cfg).
 Proof.
   unfold cinit. set (ths := map (mk_thread nv) cfg). set (n := sumz (tokc 0) ths).
   assert (NP : forall b, sumz (pendc b) ths = 0).
@@ -728,8 +736,8 @@ Proof.
     + apply Z.eqb_neq in E. destruct b as [|b].
       * unfold getcb; cbn. split; [|intros X; discriminate]. intros _. fold n.
         repeat split; try lia. destruct (n =? 0) eqn:E2; [apply Z.eqb_eq in E2; lia|reflexivity].
-      * assert (F : getcb [{| crc := n; cfreed := false; cfrees := 0; cval := val |}] (S b) = dead_cblock)
-          by (unfold getcb; destruct b; reflexivity).
+      * assert (F : forall k0, getcb [k0] (S b) = dead_cblock)
+          by (intros k0; unfold getcb; destruct b; reflexivity).
         rewrite F. cbn. split; [intros X; discriminate|]. intros _.
         split; [apply TK; discriminate|]. split; [reflexivity|intros X; lia].
   - intros t th H. cbn [threads cheap] in *. apply nth_error_In in H. unfold ths in H. apply in_map_iff in H.
@@ -803,7 +811,7 @@ Proof.
 Qed.
 
 (* ---- the monitors ---------------------------------------------------------------------------------------------- *)
-Lemma monitor_write_meaning st b : monitor st (AWrite b) = None ->
+Lemma monitor_write_meaning st b nv : monitor st (AWrite b nv) = None ->
   cfreed (getcb (cheap st) b) = false /\ handles_total st b = 1.
 Proof.
   unfold monitor. destruct (cfreed (getcb (cheap st) b)); [discriminate|].
@@ -815,7 +823,7 @@ Proof.
   unfold monitor. destruct (cfreed (getcb (cheap st) b)); [discriminate|].
   destruct (handles_total st b =? 0) eqn:E; [|discriminate]. apply Z.eqb_eq in E. auto.
 Qed.
-Lemma monitor_access_meaning st a b : a = ATouch b \/ a = AReadRef b \/ a = AInc b \/ a = ADec b \/ a = AAlloc b ->
+Lemma monitor_access_meaning st a b nv nc : a = ATouch b \/ a = AReadRef b \/ a = AInc b \/ a = ADec b \/ a = AAlloc b nv nc ->
   monitor st a = None -> cfreed (getcb (cheap st) b) = false.
 Proof.
   intros [->|[->|[->|[->| ->]]]]; unfold monitor; destruct (cfreed (getcb (cheap st) b)); auto; discriminate.
@@ -850,7 +858,7 @@ Proof.
   unfold cstep. destruct (cflt st); [apply cext_refl|].
   destruct (nth_error (threads st) t) as [th|]; [|apply cext_refl].
   destruct (prog th); [apply cext_refl|].
-  destruct (plan (cvariant st) th) as [a k]. unfold fire.
+  destruct (plan (cflav st) (cheap st) th) as [a k]. unfold fire.
   destruct (monitor st a); [apply cext_refl|].
   pose proof (heap_act_ext (cheap st) a) as X. destruct (heap_act (cheap st) a). exact X.
 Qed.
@@ -867,8 +875,8 @@ Definition work (th : thread) : nat := 5 * length (prog th) - phase th.
 Definition workof (st : cstate) (t : nat) : nat :=
   match nth_error (threads st) t with Some th => work th | None => 0%nat end.
 
-Lemma plan_decreases variant th res nb : tshape th -> prog th <> [] ->
-  (work (snd (plan variant th) res nb) < work th)%nat.
+Lemma plan_decreases f h th res nb : tshape th -> prog th <> [] ->
+  (work (snd (plan f h th) res nb) < work th)%nat.
 Proof.
   intros S P. unfold plan. unfold tshape in S. destruct (prog th) as [|op rest] eqn:E; [contradiction|].
   unfold work. rewrite E.
@@ -890,7 +898,7 @@ Lemma cstep_other st t u : t <> u -> nth_error (threads (cstep st t)) u = nth_er
 Proof.
   intros N. unfold cstep. destruct (cflt st); [reflexivity|].
   destruct (nth_error (threads st) t) as [th|]; [|reflexivity].
-  destruct (prog th); [reflexivity|]. destruct (plan (cvariant st) th) as [a k]. unfold fire.
+  destruct (prog th); [reflexivity|]. destruct (plan (cflav st) (cheap st) th) as [a k]. unfold fire.
   destruct (monitor st a); [reflexivity|]. destruct (heap_act (cheap st) a). cbn [threads].
   apply nth_error_upd_other. exact N.
 Qed.
@@ -902,8 +910,8 @@ Proof.
   destruct (ci_thr st I t th H) as [S _].
   unfold cstep in *. rewrite (ci_flt st I) in *. rewrite H in *.
   destruct (prog th) as [|op rest] eqn:E; [contradiction|].
-  pose proof (plan_decreases (cvariant st) th) as D. rewrite E in D.
-  destruct (plan (cvariant st) th) as [a k]. unfold fire in *.
+  pose proof (plan_decreases (cflav st) (cheap st) th) as D. rewrite E in D.
+  destruct (plan (cflav st) (cheap st) th) as [a k]. unfold fire in *.
   destruct (monitor st a); [discriminate|]. destruct (heap_act (cheap st) a) as [h' res]. cbn [threads].
   exists (k res (length (cheap st))). split.
   - apply nth_error_upd_same. eapply nth_error_lt. exact H.
@@ -945,8 +953,8 @@ Proof.
   apply (work_zero_iff th S). specialize (W t). unfold workof in W. rewrite H in W. exact W.
 Qed.
 
-Lemma workof_cinit variant val nv cfg t :
-  workof (cinit variant val nv cfg) t = (5 * length (snd (nth t cfg (0%nat, []))))%nat.
+Lemma workof_cinit f val nv cfg t :
+  workof (cinit f val nv cfg) t = (5 * length (snd (nth t cfg (0%nat, []))))%nat.
 Proof.
   unfold workof, cinit. cbn [threads]. rewrite nth_error_map.
   destruct (nth_error cfg t) as [c|] eqn:E.
@@ -973,13 +981,13 @@ Proof.
   intros t th v b H X. apply (CInv_no_handle_to_released st b t th v I H X).
 Qed.
 
-Theorem all_interleavings_safe variant val nv cfg sched :
-  safe_state (run_sched (cinit variant val nv cfg) sched).
+Theorem all_interleavings_safe f val nv cfg sched :
+  safe_state (run_sched (cinit f val nv cfg) sched).
 Proof. apply CInv_safe, run_sched_inv, cinit_inv. Qed.
 
-Theorem all_interleavings_release_final variant val nv cfg s1 s2 b :
-  let st1 := run_sched (cinit variant val nv cfg) s1 in
-  let st2 := run_sched (cinit variant val nv cfg) (s1 ++ s2) in
+Theorem all_interleavings_release_final f val nv cfg s1 s2 b :
+  let st1 := run_sched (cinit f val nv cfg) s1 in
+  let st2 := run_sched (cinit f val nv cfg) (s1 ++ s2) in
   (b < length (cheap st1))%nat ->
   (b < length (cheap st2))%nat /\
   (cfrees (getcb (cheap st1) b) <= cfrees (getcb (cheap st2) b) <= 1)%nat /\
@@ -992,9 +1000,9 @@ Proof.
   rewrite (CInv_released_once _ b I2) by lia. destruct (cfreed (getcb (cheap (run_sched st1 s2)) b)); lia.
 Qed.
 
-Theorem fair_schedules_complete variant val nv cfg sched :
+Theorem fair_schedules_complete f val nv cfg sched :
   (forall t, (5 * length (snd (nth t cfg (0%nat, []))) <= count_occ Nat.eq_dec sched t)%nat) ->
-  let st := run_sched (cinit variant val nv cfg) sched in
+  let st := run_sched (cinit f val nv cfg) sched in
   finished st /\
   forall b, (b < length (cheap st))%nat ->
     let nvars := sumz (fun th => vcount b (tvars th)) (threads st) in
@@ -1011,29 +1019,98 @@ Qed.
 
 (* the access a thread is about to perform is always a legal one *)
 Lemma next_access_allowed st t th : CInv st -> nth_error (threads st) t = Some th -> prog th <> [] ->
-  monitor st (fst (plan (cvariant st) th)) = None.
+  monitor st (fst (plan (cflav st) (cheap st) th)) = None.
 Proof.
   intros I H P. pose proof (ci_flt _ (cstep_inv st t I)) as F.
   unfold cstep in F. rewrite (ci_flt st I), H in F.
   destruct (prog th) as [|op rest]; [contradiction|].
-  destruct (plan (cvariant st) th) as [a k]. cbn [fst]. unfold fire in F.
+  destruct (plan (cflav st) (cheap st) th) as [a k]. cbn [fst]. unfold fire in F.
   destruct (monitor st a); [discriminate|reflexivity].
 Qed.
 
-Theorem all_interleavings_next_access variant val nv cfg sched t th :
-  let st := run_sched (cinit variant val nv cfg) sched in
+Theorem all_interleavings_next_access f val nv cfg sched t th :
+  let st := run_sched (cinit f val nv cfg) sched in
   nth_error (threads st) t = Some th -> prog th <> [] ->
-  let a := fst (plan (cvariant st) th) in
-  (forall b, a = AWrite b -> cfreed (getcb (cheap st) b) = false /\ handles_total st b = 1) /\
+  let a := fst (plan (cflav st) (cheap st) th) in
+  (forall b c, a = AWrite b c -> cfreed (getcb (cheap st) b) = false /\ handles_total st b = 1) /\
   (forall b, a = AFree b -> cfreed (getcb (cheap st) b) = false /\ handles_total st b = 0) /\
-  (forall b, a = ATouch b \/ a = AReadRef b \/ a = AInc b \/ a = ADec b \/ a = AAlloc b ->
+  (forall b c k, a = ATouch b \/ a = AReadRef b \/ a = AInc b \/ a = ADec b \/ a = AAlloc b c k ->
              cfreed (getcb (cheap st) b) = false).
 Proof.
   intros st H P a.
   assert (I : CInv st) by (apply run_sched_inv, cinit_inv).
   pose proof (next_access_allowed st t th I H P) as M. fold a in M.
   split; [|split].
-  - intros b E. rewrite E in M. apply (monitor_write_meaning st b M).
+  - intros b c E. rewrite E in M. apply (monitor_write_meaning st b c M).
   - intros b E. rewrite E in M. apply (monitor_free_meaning st b M).
-  - intros b E. apply (monitor_access_meaning st a b E M).
+  - intros b c k E. apply (monitor_access_meaning st a b c k E M).
+Qed.
+
+(* ---- an access trace of the implementation that [replay] accepts is a run of the machine ------------------- *)
+Lemma advance_run fuel st t st' l : advance fuel st t = (st', l) -> st' = run_sched st l.
+Proof.
+  revert st st' l. induction fuel as [|n IH]; intros st st' l H; cbn [advance] in H.
+  - inversion H; reflexivity.
+  - destruct (next_action st t) as [a|]; [|inversion H; reflexivity].
+    destruct (silent a); [|inversion H; reflexivity].
+    destruct (advance n (cstep st t) t) as [s2 l2] eqn:E. inversion H; subst.
+    change (run_sched st (t :: l2)) with (run_sched (cstep st t) l2). apply IH. exact E.
+Qed.
+
+Lemma accept_run st e st' l : accept st e = Some (st', l) -> st' = run_sched st l.
+Proof.
+  unfold accept. intros H. destruct (ekind_of e).
+  1-6: destruct (advance (fuel_of st (etid e)) st (etid e)) as [s1 l1] eqn:A;
+       destruct (next_action s1 (etid e)) as [a|]; [|discriminate];
+       destruct (cflt (cstep s1 (etid e))); [discriminate|];
+       destruct (match_event e a (cstep s1 (etid e))); [|discriminate];
+       inversion H; subst; rewrite run_sched_app, <- (advance_run _ _ _ _ _ A); reflexivity.
+  destruct (at_copy_point st (etid e)); [|discriminate].
+  destruct (cflt (cstep st (etid e))); [discriminate|]. inversion H; subst. reflexivity.
+Qed.
+
+Lemma replay_run st es st' l rest : replay st es = (st', l, rest) -> st' = run_sched st l.
+Proof.
+  revert st st' l rest. induction es as [|e r IH]; intros st st' l rest H; cbn [replay] in H.
+  - inversion H; reflexivity.
+  - destruct (accept st e) as [[s1 l1]|] eqn:A; [|inversion H; reflexivity].
+    destruct (replay s1 r) as [[s2 l2] rs] eqn:R. inversion H; subst.
+    rewrite run_sched_app, <- (accept_run _ _ _ _ A). apply (IH _ _ _ _ R).
+Qed.
+
+Lemma finish_run st ts st' l : finish st ts = (st', l) -> st' = run_sched st l.
+Proof.
+  revert st st' l. induction ts as [|t r IH]; intros st st' l H; cbn [finish] in H.
+  - inversion H; reflexivity.
+  - destruct (advance (fuel_of st t) st t) as [s1 l1] eqn:A.
+    destruct (finish s1 r) as [s2 l2] eqn:F. inversion H; subst.
+    rewrite run_sched_app, <- (advance_run _ _ _ _ _ A). apply (IH _ _ _ F).
+Qed.
+
+Theorem accepted_trace_is_run f val nv cfg es ts st1 l1 rest st2 l2 :
+  replay (cinit f val nv cfg) es = (st1, l1, rest) -> finish st1 ts = (st2, l2) ->
+  st1 = run_sched (cinit f val nv cfg) l1 /\ st2 = run_sched (cinit f val nv cfg) (l1 ++ l2) /\
+  safe_state st1 /\ safe_state st2.
+Proof.
+  intros R F. pose proof (replay_run _ _ _ _ _ R) as E1. pose proof (finish_run _ _ _ _ F) as E2.
+  assert (E3 : st2 = run_sched (cinit f val nv cfg) (l1 ++ l2)) by (rewrite run_sched_app, <- E1; exact E2).
+  split; [exact E1|]. split; [exact E3|]. split.
+  - rewrite E1. apply all_interleavings_safe.
+  - rewrite E3. apply all_interleavings_safe.
+Qed.
+
+(* what an accepted event says about the step the machine made for it *)
+Lemma accept_means st e st' l : accept st e = Some (st', l) ->
+  cflt st' = None /\ exists s1, st' = cstep s1 (etid e) /\
+  (ekind_of e = ECopy \/ exists a, next_action s1 (etid e) = Some a /\ match_event e a st' = true).
+Proof.
+  unfold accept. intros H. destruct (ekind_of e) eqn:K.
+  1-6: destruct (advance (fuel_of st (etid e)) st (etid e)) as [s1 l1] eqn:A;
+       destruct (next_action s1 (etid e)) as [a|] eqn:N; [|discriminate];
+       destruct (cflt (cstep s1 (etid e))) eqn:FL; [discriminate|];
+       destruct (match_event e a (cstep s1 (etid e))) eqn:M; [|discriminate];
+       inversion H; subst; split; [exact FL|]; exists s1; split; [reflexivity|]; right; exists a; split; [exact N|exact M].
+  destruct (at_copy_point st (etid e)); [|discriminate].
+  destruct (cflt (cstep st (etid e))) eqn:FL; [discriminate|]. inversion H; subst.
+  split; [exact FL|]. exists st. split; [reflexivity|left; reflexivity].
 Qed.
